@@ -7,6 +7,7 @@ mod dump;
 mod gen_doc;
 mod int;
 mod vdm;
+mod http;
 mod obs;
 mod prng;
 mod proto;
@@ -89,6 +90,7 @@ fn main() {
         "c03" => int::run(&args, &mut model, "C03"),
         "c06" => int::run(&args, &mut model, "C06"),
         "c07" => int::run(&args, &mut model, "C07"),
+        "c20" => http::run(&args, &mut model),
         f => {
             eprintln!("unknown family {}", f);
             std::process::exit(2);
